@@ -203,6 +203,22 @@ theorem squietW_registerNew (w : Watcher) (hw : w.pids = []) (s : State) : SQuie
           · simp [defaultWatcher] at hl
         | some x => rw [hf] at hl; simpa using hl
 
+theorem nonine_registerNew (w : Watcher) (h9 : w.stopSignal ≠ 9) (s : State) : NoNine s (registerNew w s).2 := by
+  unfold registerNew registerChecked
+  split
+  · exact NoNine.refl s
+  · split
+    · exact NoNine.refl s
+    · refine ⟨⟨[], by simp, fun _ h => by cases h⟩, ?_⟩
+      intro w' hw' h9'
+      simp only at hw'
+      rcases List.mem_append.mp hw' with hw' | hw'
+      · exact ⟨w', hw', h9'⟩
+      · exfalso
+        simp only [List.mem_cons, List.mem_nil_iff, or_false] at hw'
+        subst hw'
+        exact h9 (by simpa [clampNp] using h9')
+
 /-- a successful `Popen()` enters the worker as a child of the daemon -/
 theorem spawn_some_dc (k : Kernel) (pid : Nat) (hlt : ∀ q ∈ k.procs.map (·.pid), q < k.nextPid)
     (h : (k.spawn).2 = some pid) : (k.spawn).1.DC pid := by
@@ -436,6 +452,12 @@ end
 theorem setWOpt_si (u : Nat) (c : OptChange) : Pres (SI none) (setWOpt u c) := SI.pres_quietW (squietW_setWOpt u c) (pidLeafX.setWOpt u c)
 theorem registerNew_si (w : Watcher) (hw : w.pids = []) : Pres (SI none) (registerNew w) :=
   SI.pres_quietW (squietW_registerNew w hw) (pidLeafX.registerNew w hw)
+
+/-- … and in any mode when they do not bring `stop_signal = 9` in -/
+theorem setWOpt_si_j {J : JMode} (u : Nat) (c : OptChange) (hc : c ≠ .stopSignal 9) : Pres (SI J) (setWOpt u c) :=
+  SI.pres_quiet (squiet_setWOpt u c hc) (pidLeafX.setWOpt u c)
+theorem registerNew_si_j {J : JMode} (w : Watcher) (hw : w.pids = []) (h9 : w.stopSignal ≠ 9) : Pres (SI J) (registerNew w) :=
+  SI.pres_quiet (fun s => ⟨squietW_registerNew w hw s, nonine_registerNew w h9 s⟩) (pidLeafX.registerNew w hw)
 
 /-! ### the coroutine heap -/
 
